@@ -25,16 +25,16 @@ DEV_ASSUMPTION = (
 
 HOOK_COMMITS = ["51e6703", "9b45c9b", "5309720", "1550565", "35b25f3"]
 
-NA_GLUE = ("the deciding mechanism lives in MultiRecordLog / RollingReader / RollingWriter / Directory over std::fs, std::path, "
-           "core::fmt and HashMap; symbolic execution of those std bodies does not terminate under CBMC in this sandbox "
-           "(DESIGN.md section 3, probes B1-B7; HashMap re-probed with fixed hash keys in the build phase, B21; the replay loop "
-           "additionally forks on a discriminant CBMC cannot fold, B17/B18) and replacing them would verify a re-hosted copy, "
-           "not the repository. Independent seeded changes in this code are not detected by any check (DESIGN.md section 7)")
+NA_GLUE = ("needs MultiRecordLog::open -- the directory scan, RollingReader::open and the replay loop of open_with_prefs -- and/or crash points "
+           "between file-system effects. open() goes through std::fs / std::path / core::fmt bodies that do not terminate under CBMC here (DESIGN.md "
+           "section 3, B1-B7) and its replay loop forks on a discriminant CBMC cannot fold after the first skipped entry (B17/B18); the I/O stubs of the "
+           "log-level harnesses are stateless (B24), so an order of effects cannot be recorded. The LIVE paths of MultiRecordLog are checked under other "
+           "properties (DESIGN.md section 2.7); seeded changes in open()'s replay loop and in Directory::open are not detected by any check (section 7)")
 
 NOT_APPLICABLE = {
-    "C01": "restart == replay of the WAL by open_with_prefs over files, roll-over and GC: " + NA_GLUE,
-    "C03": "the property is the order of flush / sync_data / sync_directory / remove_file calls issued by multi_record_log.rs and rolling/directory.rs: " + NA_GLUE,
-    "C11": "the failing retry loop is the `let Ok(..) else continue` of open_with_prefs, which cannot be executed without RollingReader: " + NA_GLUE,
+    "C01": "the property compares the state before drop with the state after open(): " + NA_GLUE,
+    "C03": "the property is about which flush / sync_data / sync_directory / remove_file calls have happened before a crash and what open() recovers from it: " + NA_GLUE,
+    "C11": "the property is about open() under injected I/O errors; the retry loop in question is the `let Ok(..) else continue` of open_with_prefs (a defect seen by reading, DESIGN.md section 5): " + NA_GLUE,
 }
 
 CHECKS = {
